@@ -360,9 +360,10 @@ Section Completeness.
     next_action T s b = Reduce lhs rhs.
   Proof.
     intros s l p la lhs rhs b Hg Hin Hp Hb. pose proof (c_item _ _ _ Hg Hin) as Hc.
-    unfold check_item in Hc. cbn [fst snd] in Hc. rewrite Hp in Hc. simpl in Hc.
+    assert (Hr : rhs_of G (Some p) = Some rhs) by (unfold rhs_of; rewrite Hp; reflexivity).
     assert (Hnone : nth_error rhs (length rhs) = None) by (apply nth_error_None; lia).
-    rewrite Hnone in Hc. apply andb_true_iff in Hc. destruct Hc as [_ Hc].
+    unfold check_item in Hc. cbn [fst snd] in Hc. rewrite Hr, Hnone, Hp in Hc.
+    apply andb_true_iff in Hc. destruct Hc as [_ Hc].
     pose proof (subset_mem _ _ _ Hc Hb) as Hm. apply reduce_mask_spec in Hm.
     unfold next_action. unfold arow in Hm.
     destruct (nget (t_action T) s) as [r|]; [|discriminate]. rewrite Hm. reflexivity.
@@ -374,7 +375,8 @@ Section Completeness.
     next_action T s (t_eoi T) = Accept.
   Proof.
     intros s l la Hg Hin Hb. pose proof (c_item _ _ _ Hg Hin) as Hc.
-    unfold check_item in Hc. cbn [fst snd] in Hc. rewrite Hb in Hc. simpl in Hc.
+    unfold check_item in Hc. cbn [fst snd rhs_of nth_error] in Hc. rewrite Hb in Hc.
+    cbn [negb orb length Nat.eqb andb] in Hc.
     unfold next_action. unfold arow in Hc.
     destruct (nget (t_action T) s) as [r|]; [|discriminate].
     destruct (assoc (t_eoi T) r) as [[s'|lh rh| |c]|]; try discriminate. reflexivity.
@@ -425,7 +427,7 @@ Section Completeness.
       destruct (In_nth_error _ _ Hprod) as [q Hq].
       pose proof (item_closure _ _ _ _ _ _ _ _ _ _ Hg Hin Hr Hn Hq Hb) as [l2 [la2 [Hg2 [Hin2 Hm2]]]].
       assert (Hrq : rhs_of G (Some (N.of_nat q)) = Some gamma).
-      { simpl. rewrite Nat2N.id. rewrite Hq. reflexivity. }
+      { unfold rhs_of. rewrite Nat2N.id. unfold production in *. rewrite Hq. reflexivity. }
       destruct (IH stk b rest' (Some (N.of_nat q)) O la2 gamma l2 Hg2 Hin2 Hrq eq_refl Hm2)
         as [n [pushed [Heq [Hlen [Hts [l3 [la3 [Hg3 [Hin3 Hm3]]]]]]]]].
       simpl in Hin3.
@@ -519,16 +521,20 @@ Proof.
   rewrite Nat.add_comm in Hn. rewrite Hn in Hm. discriminate.
 Qed.
 
-(* Crashes and non-termination are excluded on sentences as well. *)
-Theorem sentence_never_crashes : forall G T I F t toks fuel,
+(* On a sentence, whatever `run` returns before running out of fuel is its tree:
+   no crash, no error, no other tree. *)
+Theorem sentence_result : forall G T I F t toks fuel,
   check_complete G T I F = true -> derives G (g_start G) t 0%nat toks ->
   run T fuel toks = Accepted t \/ run T fuel toks = OutOfFuel.
 Proof.
   intros G T I F t toks fuel Hc Hd. destruct (run_complete_gen G T I F Hc t toks Hd) as [n Hn].
-  destruct (run T fuel toks) eqn:E; auto; exfalso; unfold run in E;
-    (pose proof (loop_fuel_mono _ _ _ _ _ _ E) as Hm;
-     match type of Hm with ?r <> OutOfFuel -> _ => assert (Hne : r <> OutOfFuel) by discriminate end;
-     specialize (Hm Hne n); specialize (Hn fuel); unfold run in Hn; rewrite Nat.add_comm in Hn;
-     rewrite Hn in Hm; inversion Hm).
-  - left. subst. reflexivity.
+  assert (Hgen : forall r, run T fuel toks = r -> r <> OutOfFuel -> r = Accepted t).
+  { intros r E Hne. unfold run in E. pose proof (loop_fuel_mono _ _ _ _ _ _ E Hne n) as Hm.
+    specialize (Hn fuel). unfold run in Hn. rewrite Nat.add_comm in Hn. rewrite Hn in Hm.
+    symmetry. exact Hm. }
+  destruct (run T fuel toks) as [t0|c i tok st e|k|] eqn:E.
+  - left. apply Hgen; [reflexivity|discriminate].
+  - left. apply Hgen; [reflexivity|discriminate].
+  - left. apply Hgen; [reflexivity|discriminate].
+  - right. reflexivity.
 Qed.
